@@ -392,14 +392,133 @@ Definition decode_case (l : list Z) : option (config * list (op * obs)) :=
   | _ => None
   end.
 
+(* ---- host level ---------------------------------------------------------------
+   Monitor clause: an observed address appears in a view of the host
+   (DirectAddrs/AllAddrs, Addrs, HolePunchAddrs) only while the observed address
+   manager currently reports it (AddrsFor of a listen address; for the
+   hole-punching view also Addrs(1), which that view includes by design).
+
+   host case := 18 mode thresh nconn  nX (pub hidden){nX}  hstep*
+     mode 0: plain host; 1: autonat-v1 reachability Private with a relay address
+     hidden = 1: the AddrsFactory of the case removes this address
+   hstep := op c a  (inM0 inM1 inDirect inAddrs inHole){nX}
+     op 1: conn c reports tracked address a (a = nX: a loopback address) through
+           the event bus; op 3: conn c disconnects; then updateAddrsSync; then
+           for every tracked address what the manager answers NOW and the views. *)
+Definition host_ok (inM0 inM1 : bool) (v : hview) : bool :=
+  implb (hv_direct v) inM0 && implb (hv_addrs v) inM0 && implb (hv_hole v) (inM0 || inM1).
+
+Definition hview_eqb (a b : hview) : bool :=
+  Bool.eqb (hv_direct a) (hv_direct b) && Bool.eqb (hv_addrs a) (hv_addrs b)
+  && Bool.eqb (hv_hole a) (hv_hole b).
+
+Definition hrow := list (hostx * (bool * bool) * hview).
+
+Fixpoint hrow_first_bad (f : hostx -> bool -> bool -> hview -> bool) (j : Z) (row : hrow) : list Z :=
+  match row with
+  | [] => []
+  | (x, (m0, m1), v) :: r => if f x m0 m1 v then hrow_first_bad f (j + 1) r else [j]
+  end.
+
+Fixpoint hrun (f : hostx -> bool -> bool -> hview -> bool) (code : Z) (i : Z) (rows : list hrow) : list Z :=
+  match rows with
+  | [] => []
+  | row :: r =>
+      match hrow_first_bad f 100 row with
+      | [] => hrun f code (i + 1) r
+      | d => code :: i :: d
+      end
+  end.
+
+Definition host_monitor (rows : list hrow) : list Z :=
+  hrun (fun _ m0 m1 v => host_ok m0 m1 v) ERR_PROPERTY 0 rows.
+
+Definition host_conform (priv : bool) (rows : list hrow) : list Z :=
+  hrun (fun x m0 m1 v => hview_eqb (host_view priv x m0 m1) v) ERR_MISMATCH 0 rows.
+
+(* the model's rows for given manager answers *)
+Definition host_model_rows (priv : bool) (ins : list (list (hostx * (bool * bool)))) : list hrow :=
+  map (map (fun p : hostx * (bool * bool) =>
+              (fst p, snd p, host_view priv (fst p) (fst (snd p)) (snd (snd p))))) ins.
+
+Fixpoint take_hx (n : nat) (l : list Z) : option (list hostx * list Z) :=
+  match n with
+  | O => Some ([], l)
+  | S n' =>
+    match l with
+    | p :: h :: r =>
+        match take_hx n' r with
+        | Some (xs, r') => Some (mkHX (zbool p) (zbool h) :: xs, r')
+        | None => None
+        end
+    | _ => None
+    end
+  end.
+
+Fixpoint take_hrow (xs : list hostx) (l : list Z) : option (hrow * list Z) :=
+  match xs with
+  | [] => Some ([], l)
+  | x :: xr =>
+    match l with
+    | a :: b :: c :: d :: e :: r =>
+        match take_hrow xr r with
+        | Some (row, r') => Some ((x, (zbool a, zbool b), mkHV (zbool c) (zbool d) (zbool e)) :: row, r')
+        | None => None
+        end
+    | _ => None
+    end
+  end.
+
+Fixpoint decode_hsteps (xs : list hostx) (fuel : nat) (l : list Z) : option (list hrow) :=
+  match fuel with
+  | O => None
+  | S f =>
+    match l with
+    | [] => Some []
+    | _ :: _ :: _ :: r =>
+        match take_hrow xs r with
+        | Some (row, r') =>
+            match decode_hsteps xs f r' with
+            | Some t => Some (row :: t)
+            | None => None
+            end
+        | None => None
+        end
+    | _ => None
+    end
+  end.
+
+Definition decode_host (l : list Z) : option (bool * list hrow) :=
+  match l with
+  | 18 :: mode :: _ :: _ :: nx :: r =>
+      if nx <? 0 then None else
+      match take_hx (Z.to_nat nx) r with
+      | Some (xs, r1) =>
+          match decode_hsteps xs (S (length r1)) r1 with
+          | Some rows => Some (mode =? 1, rows)
+          | None => None
+          end
+      | None => None
+      end
+  | _ => None
+  end.
+
 Definition conform_case (l : list Z) : list Z :=
   match decode_case l with
   | Some (cfg, tr) => conform_run cfg init_state 0 tr
-  | None => [ERR_MALFORMED; 0]
+  | None =>
+      match decode_host l with
+      | Some (priv, rows) => host_conform priv rows
+      | None => [ERR_MALFORMED; 0]
+      end
   end.
 
 Definition monitor_case (l : list Z) : list Z :=
   match decode_case l with
   | Some (cfg, tr) => mon_run cfg mon_init 0 tr
-  | None => [ERR_MALFORMED; 0]
+  | None =>
+      match decode_host l with
+      | Some (_, rows) => host_monitor rows
+      | None => [ERR_MALFORMED; 0]
+      end
   end.
